@@ -587,7 +587,8 @@ def storeMove (rec : Path → Val → Option Path → FM (Option Report))
       let _ ← rec targetNode (.dict [(last, getValue srcNode)]) none
       pure ()
     else setAt (tgt ++ [last]) srcNode
-    let targetPath := tgt ++ sourcePath
+    -- `target.path_for() + source_path[-1:]`: `tgt` is the parent under which the node was attached (fix F56)
+    let targetPath := tgt ++ [last]
     let procs := depthProcs [] srcNode
     let topo := procs.map fun pa => (pathVal (targetPath ++ pa.1), pa.2.topology)
     let prs := (procs.filter fun pa => !pa.2.value.procIsStep).map
